@@ -210,6 +210,82 @@ fn framed_write_many(ps: Vec<Packet>) -> Result<Vec<Message>, String> {
     Ok(r.1)
 }
 
+/// Back-pressure: the server does not read until the client's writes stall (the socket buffers are
+/// full); then it drains.  Returns (packets whose write returned Ok, binary messages the server got).
+fn back_pressure(compressed: bool) -> Result<(Vec<Vec<u8>>, Vec<Vec<u8>>, usize), String> {
+    let rt = tokio::runtime::Builder::new_current_thread().enable_io().enable_time().build().map_err(|e| e.to_string())?;
+    rt.block_on(async move {
+        let std_listener = LISTENER.with(|l| l.try_clone()).map_err(|e| e.to_string())?;
+        let listener = tokio::net::TcpListener::from_std(std_listener).map_err(|e| e.to_string())?;
+        let addr = listener.local_addr().unwrap();
+        let (go_tx, go_rx) = tokio::sync::oneshot::channel::<()>();
+        let server = tokio::spawn(async move {
+            let (stream, _) = listener.accept().await.map_err(|e| e.to_string())?;
+            let mut ws = tokio_tungstenite::accept_async(stream).await.map_err(|e| e.to_string())?;
+            let _ = go_rx.await;
+            let mut got: Vec<Vec<u8>> = vec![];
+            loop {
+                // until the last marker has arrived (20 s without anything = it never will)
+                match tokio::time::timeout(Duration::from_secs(20), ws.next()).await {
+                    Err(_) => break,
+                    Ok(None) | Ok(Some(Err(_))) => break,
+                    Ok(Some(Ok(Message::Binary(b)))) => {
+                        let last = b.windows(8).any(|w| w == b"marker 2");
+                        got.push(b.to_vec());
+                        if last {
+                            // a short grace period for anything that should not follow
+                            while let Ok(Some(Ok(Message::Binary(b)))) = tokio::time::timeout(Duration::from_millis(200), ws.next()).await {
+                                got.push(b.to_vec());
+                            }
+                            break;
+                        }
+                    },
+                    Ok(Some(Ok(Message::Close(_)))) => break,
+                    Ok(Some(Ok(_))) => {},
+                }
+            }
+            Ok::<_, String>(got)
+        });
+        let tcp = tokio::time::timeout(WATCHDOG, tokio::net::TcpStream::connect(addr)).await.map_err(|_| "connect timed out".to_string())?.map_err(|e| e.to_string())?;
+        let _ = tcp.set_nodelay(true);
+        let (ws, _) = tokio::time::timeout(WATCHDOG, tokio_tungstenite::client_async(format!("ws://{addr}/connect"), tokio_tungstenite::MaybeTlsStream::Plain(tcp)))
+            .await.map_err(|_| "websocket handshake timed out".to_string())?.map_err(|e| e.to_string())?;
+        let codec = Codec::new(if compressed { Mode::Compressed } else { Mode::Uncompressed });
+        let mut framed = Framed::new(Box::new(WebsocketStream::from(ws)), Codec::new(if compressed { Mode::Compressed } else { Mode::Uncompressed }));
+        let mut written: Vec<Vec<u8>> = vec![];
+        // numbered 136-byte packets until a write does not come back within 300 ms (or 16 MB went out)
+        for n in 0..120_000u32 {
+            let p = Packet::Mtc(insim::insim::Mtc { text: format!("packet {n:08} {}", "x".repeat(100)), ..Default::default() });
+            let frame = codec.encode(&p).map_err(|e| e.to_string())?.to_vec();
+            match tokio::time::timeout(Duration::from_millis(300), framed.write(p)).await {
+                Err(_) => break, // stalled: this one may or may not arrive, at most once
+                Ok(Err(e)) => return Err(format!("write #{n} failed: {e}")),
+                Ok(Ok(())) => written.push(frame),
+            }
+        }
+        let stalled_at = written.len();
+        let _ = go_tx.send(());
+        // the peer drains; the application goes on writing (what had been accepted into the sink while the
+        // socket was full leaves with the next writes - nothing flushes it for an idle application, which
+        // is a matter of latency, not of this property)
+        tokio::time::sleep(Duration::from_millis(400)).await;
+        for n in 0..3u32 {
+            let p = Packet::Mtc(insim::insim::Mtc { text: format!("marker {n}"), ..Default::default() });
+            let frame = codec.encode(&p).map_err(|e| e.to_string())?.to_vec();
+            match tokio::time::timeout(Duration::from_secs(5), framed.write(p)).await {
+                Err(_) => return Err(format!("marker write #{n} stalled although the peer is reading")),
+                Ok(Err(e)) => return Err(format!("marker write #{n} failed: {e}")),
+                Ok(Ok(())) => written.push(frame),
+            }
+            tokio::time::sleep(Duration::from_millis(100)).await;
+        }
+        // keep the connection alive while the server drains
+        let got = tokio::time::timeout(Duration::from_secs(60), server).await.map_err(|_| "server did not finish".to_string())?.map_err(|e| e.to_string())??;
+        drop(framed);
+        Ok((written, got, stalled_at))
+    })
+}
+
 fn partition(stream: &[u8], mask: u64) -> Vec<Vec<u8>> {
     // bit i of mask set = cut after byte i
     let mut out = vec![];
@@ -464,6 +540,35 @@ pub fn sites(tier: Tier) -> Vec<Site> {
             }
         }));
     }
+    // back-pressure: the peer does not read, the socket buffers fill, writes stall, then the peer drains
+    sites.push(Site::new("write-back-pressure", 2, "numbered 136-byte packets written until a write stalls against a peer that does not read (both modes); the peer then drains: every packet whose write returned is there exactly once, in order, one per binary message",
+        |i, acc| {
+            let compressed = i == 0;
+            acc.eval();
+            let replay = json!({"site": "write-back-pressure", "index": i, "mode": if compressed { "compressed" } else { "uncompressed" }});
+            match guard(|| back_pressure(compressed)) {
+                Err(p) => acc.violate(i, "C20|write|panic".into(), p, replay),
+                Ok(Err(e)) => { eprintln!("MACHINERY: websocket back-pressure harness failed: {e}"); std::process::exit(4); },
+                Ok(Ok((written, mut got, stalled_at))) => {
+                    // the write that stalled (and was given up) may have got its packet into the sink: it
+                    // then sits at position `stalled_at`, once; take it out before comparing
+                    if got.len() == written.len() + 1 && got.get(stalled_at) != written.get(stalled_at) {
+                        let _ = got.remove(stalled_at);
+                    }
+                    let n = written.len();
+                    let first_bad = got.iter().zip(&written).position(|(a, b)| a != b);
+                    if first_bad.is_none() && got.len() == n {
+                        acc.class("back-pressure-intact");
+                        acc.nontrivial();
+                    } else {
+                        let at = first_bad.unwrap_or(n.min(got.len()));
+                        acc.violate(i, "C20|write|not-one-binary-message-per-write".into(),
+                            format!("{n} writes returned, the peer received {} binary messages; first difference at message {at}: got {:?}, written {:?}", got.len(),
+                                got.get(at).map(|m| String::from_utf8_lossy(&m[8..m.len().min(28)]).to_string()), written.get(at).map(|m| String::from_utf8_lossy(&m[8..m.len().min(28)]).to_string())), replay);
+                    }
+                },
+            }
+        }));
     sites
 }
 
